@@ -18,8 +18,8 @@ CountOf == [s \in Seqs |-> Count(s)]
 ASSUME AllCodonsOnce == Count(AllCodons) = Ones
 
 VARIABLES steps, hist
-vars == <<heap, hA, hI, touched, steps, hist>>
-View == <<heap, hA, hI, touched, steps>>
+vars == <<heap, hA, hI, touched, file, steps, hist>>
+View == <<heap, hA, hI, touched, file, steps>>
 Slot == steps % H
 Init == SInit /\ steps = 0 /\ hist = <<>>
 Next == /\ steps < Depth /\ steps' = steps + 1
@@ -29,6 +29,8 @@ Next == /\ steps < Depth /\ steps' = steps + 1
            \/ \E h1, h2 \in Handles, c \in Cuts : CompromiseA(h1, h2, c, Slot)
                                                   /\ hist' = Append(hist, [op |-> "comp", h1 |-> h1, h2 |-> h2, cut |-> c, t |-> Slot])
            \/ \E h \in Handles : RoundtripA(h, Slot) /\ hist' = Append(hist, [op |-> "rt", h |-> h, t |-> Slot])
+           \/ \E h \in Handles : SaveA(h) /\ hist' = Append(hist, [op |-> "save", h |-> h])
+           \/ LoadA(Slot) /\ hist' = Append(hist, [op |-> "load", t |-> Slot])
 Spec == Init /\ [][Next]_vars
 
 (* ---- S->I emission: one line per transition; one header line with the genetic codes ---- *)
